@@ -259,6 +259,32 @@ func init() {
 		}
 		return []Value{st.freshVal("containsrune", tBool)}
 	})
+	reg("strings.LastIndex", true, func(v *FnV, st *State, call *ast.CallExpr, recv *Value, args []Value) []Value {
+		s, t := args[0].S, args[1].S
+		if lit, ok := v.litContent(t); ok && len(lit) == 1 {
+			return stdModels["strings.LastIndexByte"].f(v, st, call, recv, []Value{args[0], {T: tByte, S: fmt.Sprint(int(lit[0]))}})
+		}
+		r := st.freshVal("lastindex", tInt)
+		st.assume(sAnd(sLe("(- 1)", r.S), sLe(sAdd(r.S, sx("slen", t)), sx("+", sx("slen", s), sx("slen", t)))))
+		st.assume(sImp(sGe(r.S, "0"), sLe(sAdd(r.S, sx("slen", t)), sx("slen", s))))
+		return []Value{r}
+	})
+	// TrimRightFunc / TrimLeftFunc: the predicate closure is not executed; the result is a
+	// prefix / suffix of s cut at a decode boundary (documented behaviour)
+	reg("strings.TrimRightFunc", true, func(v *FnV, st *State, call *ast.CallExpr, recv *Value, args []Value) []Value {
+		v.c.utf8Fns()
+		s := args[0].S
+		k := st.freshVal("trimr", tInt)
+		st.assume(sAnd(sLe("0", k.S), sLe(k.S, sx("slen", s))))
+		return []Value{{T: tString, S: fmt.Sprintf("(mkstr (sbase %s) (soff %s) %s)", s, s, k.S)}}
+	})
+	reg("strings.TrimLeftFunc", true, func(v *FnV, st *State, call *ast.CallExpr, recv *Value, args []Value) []Value {
+		v.c.utf8Fns()
+		s := args[0].S
+		k := st.freshVal("triml", tInt)
+		st.assume(sAnd(sLe("0", k.S), sLe(k.S, sx("slen", s))))
+		return []Value{{T: tString, S: fmt.Sprintf("(mkstr (sbase %s) (+ (soff %s) %s) (- (slen %s) %s))", s, s, k.S, s, k.S)}}
+	})
 	reg("strings.HasSuffix", true, func(v *FnV, st *State, call *ast.CallExpr, recv *Value, args []Value) []Value {
 		s, t := args[0].S, args[1].S
 		if lit, ok := v.litContent(t); ok && len(lit) <= 8 {
